@@ -488,6 +488,58 @@ fn adversarial(thorough: bool) -> Vec<Value> {
             }
         }
     }
+    // --- the Terraform-aware console reporter: resource_changes entries of every shape, failures on keys that sort after
+    //     resource_changes (terraform_version, variables), resource_changes of the wrong type
+    {
+        let entries = [
+            "{\"address\":\"aws_s3_bucket.b\",\"change\":{\"after\":{\"name\":\"y\"}}}",
+            "{\"change\":{\"after\":{\"name\":\"y\"}}}",
+            "{\"address\":1,\"change\":{\"after\":{\"name\":\"y\"}}}",
+            "{\"address\":\"nodot\",\"change\":{\"after\":{\"name\":\"y\"}}}",
+            "{\"address\":\"\",\"change\":{\"after\":{\"name\":\"y\"}}}",
+            "{\"address\":\".\",\"change\":{\"after\":{\"name\":\"y\"}}}",
+            "{\"address\":[\"a.b\"],\"change\":{\"after\":{\"name\":\"y\"}}}",
+            "{\"address\":\"a.b\",\"change\":{\"after\":\"y\"}}",
+            "{\"address\":\"a.b\",\"change\":{\"before\":{\"name\":\"y\"}}}",
+            "{\"address\":\"a.b\",\"type\":\"a\",\"name\":\"y\"}",
+            "[{\"address\":\"a.b\",\"change\":{\"after\":{\"name\":\"y\"}}}]",
+            "\"x\"",
+            "null",
+        ];
+        let rules = [
+            "rule r { resource_changes[*].change.after.name == \"x\" }\n",
+            "rule r { resource_changes.*.change.after.name == \"x\" }\n",
+            "rule r { resource_changes[*].change.after == \"x\" }\n",
+            "rule r { resource_changes[*].change == 1 }\n",
+            "rule r { resource_changes[*].name == \"x\" }\n",
+            "rule r { resource_changes[*] == 1 }\n",
+            "rule r { resource_changes == 1 }\n",
+            "rule r { terraform_version == \"2\" }\n",
+            "rule r { variables.v == 2 }\n",
+            "rule r { resource_changes[*].change.after.name == \"x\"\n variables.v == 2 }\n",
+            "rule r { resource_changes[*].change.after.missing exists }\n",
+            "rule r { resource_changes[*][*].change.after.name == \"x\" }\n",
+            "rule r { planned_values.nosuch exists }\n",
+        ];
+        let mut docs: Vec<String> = vec![];
+        for e in entries {
+            docs.push(format!("{{\"resource_changes\":[{}],\"terraform_version\":\"1\",\"variables\":{{\"v\":1}}}}", e));
+            docs.push(format!("{{\"resource_changes\":[{},{}],\"terraform_version\":\"1\"}}", entries[0], e));
+            docs.push(format!("{{\"resource_changes\":{{\"k\":{}}},\"variables\":{{\"v\":1}}}}", e));
+        }
+        for d in ["{\"resource_changes\":[]}", "{\"resource_changes\":{}}", "{\"resource_changes\":\"x\"}", "{\"resource_changes\":null,\"variables\":{\"v\":1}}", "{\"resource_changes\":1,\"terraform_version\":\"1\"}"] {
+            docs.push(d.to_string());
+        }
+        for d in &docs {
+            for r in rules {
+                for extra in [vec![], vec!["-S", "all", "-v"], vec!["-o", "json"], vec!["-o", "yaml"]] {
+                    let mut argv = vec!["validate", "-r", "@r.guard", "-d", "@d.json"];
+                    argv.extend(extra.iter());
+                    out.push(cli_case(&argv, json!({"r.guard": r, "d.json": d}), "", "tf-shapes"));
+                }
+            }
+        }
+    }
     // --- several test files for one rules file, every ordered pair of {good, cut off, empty, wrong shape, not YAML, not UTF-8},
     //     picked up by name order (-a) and in directory mode, in every output format
     {
